@@ -106,7 +106,17 @@ def build_driver():
             raise BuildError("extraction:ocamlopt", out[-4000:])
 
 
+def point_harness_at_repo():
+    """the harness depends on the crate by path: /repo, or $HLS_REPO for background runs against a snapshot"""
+    toml = os.path.join(HARNESS, "Cargo.toml")
+    text = open(toml).read()
+    new = re.sub(r'hls_m3u8 = \{ path = "[^"]*" \}', 'hls_m3u8 = { path = "%s" }' % REPO, text)
+    if new != text:
+        open(toml, "w").write(new)
+
+
 def build_harness():
+    point_harness_at_repo()
     lock = os.path.join(HARNESS, "Cargo.lock")
     if not os.path.exists(lock):
         import shutil
